@@ -642,6 +642,15 @@ func absIdx(off, i string) string {
 // typeKey names a component after the Go type of its values: reference-like and integer types are
 // kept apart (they share the sort Int), everything else is named by sort.
 func typeKey(t types.Type, s Sort) string {
+	if s == SIface {
+		if n, ok := types.Unalias(t).(*types.Named); ok {
+			return sanitize(shortTypeName(n))
+		}
+		if it, ok := t.Underlying().(*types.Interface); ok && it.NumMethods() == 0 {
+			return "any"
+		}
+		return "Iface"
+	}
 	if s != SInt {
 		return sortKey(s)
 	}
@@ -672,4 +681,53 @@ type recDef struct {
 	ret   Sort
 	retT  types.Type
 	busy  bool
+}
+
+// ---- the "no nil object" discipline (assumption A-OBJ in DESIGN.md) -------------------
+// Every object.Object that the code stores into the heap is a non-nil pointer to one of the
+// module's object types (checked: obligation objinv.store at every store in a verified function);
+// in exchange every object.Object the code loads from an in-bounds slot / present map key / field is
+// assumed to be one.
+
+func isObjectType(t types.Type) bool {
+	n, ok := types.Unalias(t).(*types.Named)
+	return ok && n.Obj().Name() == "Object" && n.Obj().Pkg() != nil && n.Obj().Pkg().Name() == "object" && isModulePkg(n.Obj().Pkg())
+}
+
+func (vc *VC) goodObj(v string, t types.Type) string {
+	it := t.Underlying().(*types.Interface)
+	var alts []string
+	for _, tg := range vc.implTags(it) {
+		alts = append(alts, eq(app("i.tag", v), fmt.Sprint(tg)))
+	}
+	return and(or(alts...), not(eq(app("i.val", v), "0")))
+}
+
+// objInv: the discipline's formula for a value of type t (true when t holds no object.Object)
+func (vc *VC) objInv(v string, t types.Type, depth int) string {
+	if t == nil || depth > 2 {
+		return "true"
+	}
+	if isObjectType(t) {
+		return vc.goodObj(v, t)
+	}
+	if st, ok := t.Underlying().(*types.Struct); ok && isModuleStruct(t) {
+		s := vc.u.sortOf(t)
+		var parts []string
+		for i := 0; i < st.NumFields(); i++ {
+			parts = append(parts, vc.objInv(app(s+"."+st.Field(i).Name(), v), st.Field(i).Type(), depth+1))
+		}
+		return and(parts...)
+	}
+	return "true"
+}
+
+func (vc *VC) storeInv(reach string, v Term, t types.Type, what string) {
+	f := vc.objInv(v.S, t, 0)
+	if f == "true" {
+		return
+	}
+	k := vc.counter("objinv.store")
+	vc.oblige("objinv", fmt.Sprintf("objinv.store.%d", k), vc.safetyTags(), reach, f, "object.Object stored into "+what+" is a non-nil module object")
+	vc.assumptions["A-OBJ: object.Object values loaded from in-bounds slots, present map keys and struct fields are non-nil module objects (every store in a verified function is checked: objinv.store)"] = true
 }
